@@ -100,6 +100,17 @@ def model(repo, axis):
     if not ok:
         P("the record built for an index is not appended (exactly once, unconditionally) to the bucket's headers")
     out["kw"] = kw
+    # the size written is the size that was read, untransformed
+    size = kw.get("size")
+    if size is not None:
+        e = bs.at(_stmt_of(h), size) if bs is not None else size
+        from .symexec import _unwrap_alias
+        e2 = _unwrap_alias(f, e) if isinstance(e, ast.Name) else e
+        plain = (isinstance(e2, ast.Subscript) and isinstance(e2.value, ast.Name) and U(e2.slice) == dom["var"]) or (
+            isinstance(e2, ast.Call) and last_attr(e2.func) in ("row_height", "col_width")) or (isinstance(e2, ast.Name) and dom.get("elem") is not None)
+        out["size_expr"] = U(e2)
+        if not plain:
+            P(f"the size written is `{U(e2)[:70]}`, not the size read for that {axis}: some sizes are replaced (a 0.0 is resolved with the table's own default on reopen)")
     return out
 
 
